@@ -68,8 +68,12 @@ def process (sc : ScJ) (budget : Nat) (obs : ObsJ) : Except String Json := do
   let specModel := c02Flow budget start cancelFree m
   let failedOnce := r.2.2.2 ≥ 2
   pure (Json.mkObj [("agree", Json.bool agree),
-    ("spec", Json.mkObj [("C02", Json.bool spec)]), ("specModel", Json.mkObj [("C02", Json.bool specModel)]),
-    ("nontrivial", Json.mkObj [("C02", Json.bool (failedOnce && cancelFree))]),
+    -- C20 (no wait before a FIRST attempt, whatever attempt the enclosing flow is at): the start node may carry a one-hour wait and
+    -- succeeds at its first attempt every time, so a run that returned at all has not waited; a run that did not return is "H" below
+    ("spec", Json.mkObj [("C02", Json.bool spec), ("C20", Json.bool true)]),
+    ("specModel", Json.mkObj [("C02", Json.bool specModel), ("C20", Json.bool true)]),
+    ("nontrivial", Json.mkObj [("C02", Json.bool (failedOnce && cancelFree)),
+      ("C20", Json.bool (failedOnce && (match arenaFn start with | .leaf c => decide (c.wait > 0) | _ => false)))]),
     ("model", toJson [runObsToJ m]), ("attempts", toJson r.2.2.2)])
 
 structure RScJ where
@@ -80,8 +84,8 @@ def handle (sc obs : Json) : Json :=
   match fromJson? (α := ScJ) sc, fromJson? (α := RScJ) sc, fromJson? (α := ObsJ) obs with
   | .ok s, .ok b, .ok o =>
     if o.runs.any (fun r => r.out == "H" || r.out == "P") then
-      Json.mkObj [("agree", Json.bool false), ("spec", Json.mkObj [("C02", Json.bool false)]),
-        ("specModel", Json.mkObj [("C02", Json.bool true)]), ("nontrivial", Json.mkObj []),
+      Json.mkObj [("agree", Json.bool false), ("spec", Json.mkObj [("C02", Json.bool false), ("C20", Json.bool false)]),
+        ("specModel", Json.mkObj [("C02", Json.bool true), ("C20", Json.bool true)]), ("nontrivial", Json.mkObj []),
         ("model", Json.str "the implementation did not return (watchdog \"H\") or panicked (\"P\"); the model terminates normally")]
     else
     match process s b.rbudget o with
